@@ -2,7 +2,8 @@
     [inline]: what a value with foreign keys denotes, with NO cycle stack and no error other than
     "undefined" (missing target, group target, explicit default in the default locale, fuel):
     a foreign key denotes the substitution of its (inlined) arguments in the inlined target, the
-    target being looked up with the same lookup / inherits-walk rules as the resolver.
+    target being looked up with the same lookup / inherits-walk rules as the resolver, the
+    arguments inlined in the locale the foreign key is written in.
     Theorems: (i) a successful [resolve] denotes [inline]; the cycle stack is unobservable in a
     successful result; (iii) the driver's successful result does not depend on the order of the
     registered (locale, key path) list. *)
@@ -22,7 +23,7 @@ Definition iargs (rec : str -> pv -> option (list piece)) (L : str) (args : list
   fold_right (fun '(k, a) acc =>
     match rec L a, acc with Some d, Some r => Some ((k, pc_norm d) :: r) | _, _ => None end) (Some []) args.
 
-Fixpoint ilook (rec : str -> pv -> option (list piece)) (n : nat) (target : keypath) (args : list (str * pv)) (L : str)
+Fixpoint ilook (rec : str -> pv -> option (list piece)) (n : nat) (target : keypath) (args : list (str * pv)) (A L : str)
   : option (list piece) :=
   match get_value_at vals L target with
   | None => None
@@ -30,11 +31,11 @@ Fixpoint ilook (rec : str -> pv -> option (list piece)) (n : nat) (target : keyp
       if str_eqb L dflt then None
       else match n with
            | O => None
-           | S n' => ilook rec n' target args (walk vals dflt inherits (S (length inherits)) [L] L target)
+           | S n' => ilook rec n' target args A (walk vals dflt inherits (S (length inherits)) [L] L target)
            end
   | Some (NSub _) => None
   | Some (NVal T) =>
-      match rec L T, iargs rec L args with
+      match rec L T, iargs rec A args with
       | Some body, Some a => Some (subst_pieces a (pc_norm body))
       | _, _ => None
       end
@@ -50,7 +51,7 @@ Fixpoint inline (fuel : nat) (L : str) (v : pv) : option (list piece) :=
       | PComp k i => match inline f L i with Some d => Some [PcComp k (pc_norm d)] | None => None end
       | PBloc l =>
           fold_right (fun x acc => match inline f L x, acc with Some a, Some b => Some (a ++ b) | _, _ => None end) (Some []) l
-      | PForeign ns p args => ilook (inline f) 2 (ns, p) args L
+      | PForeign ns p args => ilook (inline f) 2 (ns, p) args L L
       end
   end.
 
@@ -75,27 +76,27 @@ Proof.
 Qed.
 
 Lemma look_inline rec irec : rec_sound rec irec ->
-  forall n stack target args L r, look rec n stack target args L = Ok r ->
-  exists d, ilook irec n target args L = Some d /\ pc_norm d = pieces r.
+  forall n stack target args A L r, look rec n stack target args A L = Ok r ->
+  exists d, ilook irec n target args A L = Some d /\ pc_norm d = pieces r.
 Proof.
-  intros Hs. induction n as [|n IHn]; intros stack target args L r H; cbn [Foreign.look] in H; cbn [ilook];
+  intros Hs. induction n as [|n IHn]; intros stack target args A L r H; cbn [Foreign.look] in H; cbn [ilook];
     destruct (get_value_at vals L target) as [[T| |sub]|]; try discriminate.
   - destruct (on_stack L target stack); [discriminate|].
     destruct (rec ((L, target) :: stack) L T) as [T'| | | |] eqn:ET; cbn [bind] in H; try discriminate.
-    destruct (resolve_args rec stack L args) as [args'| | | |] eqn:EA; cbn [bind] in H; try discriminate.
+    destruct (resolve_args rec stack A args) as [args'| | | |] eqn:EA; cbn [bind] in H; try discriminate.
     inversion H; subst. destruct (Hs _ _ _ _ ET) as (body & Eb & Pb).
     rewrite Eb, (resolve_args_iargs _ _ _ _ _ _ Hs EA). eexists. split; [reflexivity|].
     rewrite populate_subst, Pb. unfold subst_pieces. apply pc_norm_idem.
   - destruct (str_eqb L dflt); discriminate.
-  - destruct (resolve_args rec stack L args); cbn [bind] in H; discriminate.
+  - destruct (resolve_args rec stack A args); cbn [bind] in H; discriminate.
   - destruct (on_stack L target stack); [discriminate|].
     destruct (rec ((L, target) :: stack) L T) as [T'| | | |] eqn:ET; cbn [bind] in H; try discriminate.
-    destruct (resolve_args rec stack L args) as [args'| | | |] eqn:EA; cbn [bind] in H; try discriminate.
+    destruct (resolve_args rec stack A args) as [args'| | | |] eqn:EA; cbn [bind] in H; try discriminate.
     inversion H; subst. destruct (Hs _ _ _ _ ET) as (body & Eb & Pb).
     rewrite Eb, (resolve_args_iargs _ _ _ _ _ _ Hs EA). eexists. split; [reflexivity|].
     rewrite populate_subst, Pb. unfold subst_pieces. apply pc_norm_idem.
   - destruct (str_eqb L dflt); [discriminate|]. eapply IHn; exact H.
-  - destruct (resolve_args rec stack L args); cbn [bind] in H; discriminate.
+  - destruct (resolve_args rec stack A args); cbn [bind] in H; discriminate.
 Qed.
 
 Theorem resolve_inline : forall fuel stack L v r,
@@ -143,31 +144,31 @@ Proof.
   rewrite (Hw _ _ _ _ _ Hs Ea), (IH _ eq_refl). exact H.
 Qed.
 
-Lemma look_weaken rec : rec_weaken rec -> forall n s' s target args L r, sub_stack s' s ->
-  look rec n s target args L = Ok r -> look rec n s' target args L = Ok r.
+Lemma look_weaken rec : rec_weaken rec -> forall n s' s target args A L r, sub_stack s' s ->
+  look rec n s target args A L = Ok r -> look rec n s' target args A L = Ok r.
 Proof.
-  intros Hw. induction n as [|n IHn]; intros s' s target args L r Hs H; cbn [Foreign.look] in H |- *;
+  intros Hw. induction n as [|n IHn]; intros s' s target args A L r Hs H; cbn [Foreign.look] in H |- *;
     destruct (get_value_at vals L target) as [[T| |sub]|]; try discriminate.
   - destruct (on_stack L target s) eqn:Eo; [discriminate|].
     assert (Eo' : on_stack L target s' = false).
     { destruct (on_stack L target s') eqn:E; [|reflexivity]. apply Hs in E. congruence. }
     rewrite Eo'.
     destruct (rec ((L, target) :: s) L T) as [T'| | | |] eqn:ET; cbn [bind] in H; try discriminate.
-    destruct (resolve_args rec s L args) as [args'| | | |] eqn:EA; cbn [bind] in H; try discriminate.
+    destruct (resolve_args rec s A args) as [args'| | | |] eqn:EA; cbn [bind] in H; try discriminate.
     rewrite (Hw _ _ _ _ _ (sub_stack_cons (L, target) _ _ Hs) ET). cbn [bind].
     rewrite (resolve_args_weaken _ _ _ _ _ _ Hw Hs EA). exact H.
   - destruct (str_eqb L dflt); discriminate.
-  - destruct (resolve_args rec s L args); cbn [bind] in H; discriminate.
+  - destruct (resolve_args rec s A args); cbn [bind] in H; discriminate.
   - destruct (on_stack L target s) eqn:Eo; [discriminate|].
     assert (Eo' : on_stack L target s' = false).
     { destruct (on_stack L target s') eqn:E; [|reflexivity]. apply Hs in E. congruence. }
     rewrite Eo'.
     destruct (rec ((L, target) :: s) L T) as [T'| | | |] eqn:ET; cbn [bind] in H; try discriminate.
-    destruct (resolve_args rec s L args) as [args'| | | |] eqn:EA; cbn [bind] in H; try discriminate.
+    destruct (resolve_args rec s A args) as [args'| | | |] eqn:EA; cbn [bind] in H; try discriminate.
     rewrite (Hw _ _ _ _ _ (sub_stack_cons (L, target) _ _ Hs) ET). cbn [bind].
     rewrite (resolve_args_weaken _ _ _ _ _ _ Hw Hs EA). exact H.
   - destruct (str_eqb L dflt); [discriminate|]. eapply IHn; [exact Hs | exact H].
-  - destruct (resolve_args rec s L args); cbn [bind] in H; discriminate.
+  - destruct (resolve_args rec s A args); cbn [bind] in H; discriminate.
 Qed.
 
 Theorem resolve_stack_weaken : forall fuel, rec_weaken (resolve fuel).
